@@ -3,11 +3,13 @@
 package harness
 
 import (
+	"net/netip"
 	"testing"
 
 	"pgregory.net/rapid"
 	"verifharness/drv"
 	"verifharness/gen"
+	"verifharness/ref"
 )
 
 // Native coverage-guided fuzz targets (thorough tier only). Each target feeds the
@@ -103,5 +105,46 @@ func FuzzDecoders(f *testing.F) {
 		}
 		drv.Quiet()
 		c08RunDecoder(t, rec, "decoders", c08Case{Data: data, Dec: c08Decoders[int(sel)%len(c08Decoders)]})
+	})
+}
+
+// FuzzNames: C08 "frames" with the fuzzer's bytes as the UDP payload of a name-traffic datagram (DNS answer to the
+// host, mDNS, LLMNR, NBNS, SSDP over IPv4 or IPv6): the Ethernet / IP / UDP layers are always valid, so every
+// execution reaches a name handler.
+func FuzzNames(f *testing.F) {
+	rec := drv.For("C08", c08Rule)
+	w := gen.DefaultWorld()
+	ports := [][2]uint16{{53, 40000}, {5353, 5353}, {5355, 5355}, {137, 137}, {50000, 1900}, {1900, 50000}}
+	seeds := []*rapid.Generator[[]byte]{
+		rapid.Custom(func(t *rapid.T) []byte { b, _, _ := gen.DNSMsg(t, gen.DNSOptions{Response: true}).Encode(1); return b }),
+		rapid.Custom(func(t *rapid.T) []byte {
+			b, _, _ := gen.DNSMsg(t, gen.DNSOptions{MDNS: true, Response: true}).Encode(2)
+			return b
+		}),
+		rapid.Custom(func(t *rapid.T) []byte { b, _, _ := gen.DNSMsg(t, gen.DNSOptions{MDNS: true}).Encode(0); return b }),
+		rapid.Custom(func(t *rapid.T) []byte { return gen.NBNSPayload(t) }),
+		rapid.Custom(func(t *rapid.T) []byte { return gen.SSDPPayload(t) }),
+		rapid.Custom(func(t *rapid.T) []byte { return gen.SSDPPayload(t) }),
+	}
+	for k, g := range seeds {
+		for i := 0; i < 12; i++ {
+			f.Add(byte(k), false, g.Example(i))
+		}
+	}
+	f.Fuzz(func(t *testing.T, sel byte, v6 bool, payload []byte) {
+		if len(payload) > 1400 {
+			return
+		}
+		drv.Quiet()
+		p := ports[int(sel)%len(ports)]
+		cl := w.Clients[int(sel>>4)%len(w.Clients)]
+		var fr []byte
+		if v6 && p[0] != 137 {
+			src := netip.MustParseAddr("fe80::7").As16()
+			fr = ref.Eth(ref.MAC{0x33, 0x33, 0, 0, 0, 0xfb}, cl, 0x86dd, ref.IP6(ref.IP6Hdr{PayloadLen: -1, Next: 17, HopLimit: 255, Src: src, Dst: netip.MustParseAddr("ff02::fb").As16()}, ref.UDP(p[0], p[1], -1, 0, payload)))
+		} else {
+			fr = ref.Eth(ref.MAC{0xff, 0xff, 0xff, 0xff, 0xff, 0xff}, cl, 0x0800, ref.IP4(ref.IP4Hdr{TotalLen: -1, TTL: 64, Proto: 17, Checksum: -1, Src: [4]byte{192, 168, 0, 7}, Dst: w.HostIP.As4()}, ref.UDP(p[0], p[1], -1, 0, payload)))
+		}
+		c08Run(t, rec, "frames", c08Case{Data: fr, Times: 1})
 	})
 }
